@@ -7,7 +7,6 @@ func init() {
 			{Workload: "C14.hostile", Mode: "plain", QuickB: 16, ThoroughB: 16},
 			{Workload: "C14.ucon", Mode: "plain", QuickB: 4, ThoroughB: 16},
 			{Workload: "C14.staking", Mode: "plain", QuickB: 4, ThoroughB: 16},
-			{Workload: "C14.hostile", Mode: "race", QuickB: 4, ThoroughB: 8, ThoroughOnly: true},
 		},
 		Level: "exploration",
 		Rule: "C14.rt: PRNG/reflection-generated wire-normal values of 56 wire/disk types (Header, Block, Body, Transaction, Receipt(+ForStorage), Log, Validator, ValKindStat, ValidatorsStat, ValidatorIndex, WithdrawQueue/Record, staking Record, Account, delegations, pendingRelationship, staking.Message + 8 Tx* payloads, Evidence, []Evidence, EvidenceDoubleSign(V5), EvidenceInactive, SlashData(V5), LogData, ucon Message/ConsensusCommon/BlockHashWithVotes/BlockConsensusData/UconValidators/SingleVote/VoteItem, 12 you-protocol messages (mirror structs), the bare interface{} decoder), each encoded twice (determinism), checked canonical by an independent RLP model, decoded the way the node decodes it (NewValidatorsStat(), **UconValidators, p2p.Msg.Decode transcription ...), compared by normalised deep equality + re-encoding equality + Hash(). " +
@@ -22,6 +21,8 @@ func init() {
 			"trailing bytes after the first value of a p2p frame are ignored by p2p.Msg.Decode by design and are not judged",
 			"C14.ucon: the 40 blocks above genesis are fabricated (written with rawdb, genesis state roots, well-formed consensus data) rather than certified; total chamber stake (20 600) exceeds every sortition threshold, so the C04 choose() p>1 panic is outside this workload (excluded_patterns)",
 			"allocation is measured with runtime.MemStats.TotalAlloc deltas in single-goroutine children (C14.rt, C14.hostile)",
+			"no -race/checkptr variant: /repo/crypto/sha3/xor_unaligned.go trips checkptr (pointer cast wider than the buffer) in any keccak call, unrelated to RLP; the rlp package itself uses no unsafe code and the decode workloads are single-goroutine",
+			"C14.ucon re-posts the first ContextChangeEvent synchronously after StartMining (StartMining posts it asynchronously before its components subscribe; a Voter that misses it keeps a nil round while the timers are parked and panics on a current-round vote - a start-up race on a well-formed message, outside this property, reported separately)",
 			"C14.ucon: message timestamps are taken relative to the wall clock because MessageHandler.HandleMsg itself compares them with time.Now(); no oracle reads the clock (150-300 ms sleeps only let asynchronous event posts drain before the re-gossip check, a late event can only hide, never create, a report)",
 		},
 		Require: map[string]int64{
